@@ -998,6 +998,10 @@ fn replay<P: Property>(path: &Path) -> i32 {
     })
 }
 
+fn sc_confirm(exe: &Path, p: &Path) -> bool {
+    matches!(run_replay_child(exe, p, Duration::from_secs(120)), Ok(1) | Err("signal") | Err("timeout"))
+}
+
 fn read_progress(p: &Path) -> Option<Value> {
     let mut f = std::fs::File::open(p).ok()?;
     let mut len = [0u8; 8];
@@ -1136,7 +1140,11 @@ fn parent<P: Property>(tier: Tier) -> i32 {
         }
         std::thread::sleep(Duration::from_millis(50));
     }
-    // crash / hang attribution (TRACE properties only)
+    // crash / hang attribution (TRACE properties only): distinct cases, at most 6 of them (a
+    // hanging or crashing tree stops every worker that meets the defect), each confirmed twice
+    // in fresh processes, all confirmations in parallel
+    let mut todo: Vec<(usize, &'static str, PathBuf, Value)> = vec![];
+    let mut not_confirmed_extra = 0usize;
     for (i, kind, pc) in crash_cases {
         if !P::TRACE {
             continue;
@@ -1151,20 +1159,38 @@ fn parent<P: Property>(tier: Tier) -> i32 {
         let d = out_root().join("replays").join(P::ID);
         let _ = std::fs::create_dir_all(&d);
         let p = d.join(format!("{:016x}.json", debug_hash(&s)));
+        if todo.iter().any(|t| t.2 == p) {
+            continue;
+        }
+        if todo.len() >= 6 {
+            not_confirmed_extra += 1;
+            continue;
+        }
         let _ = std::fs::write(&p, s);
-        // confirm twice in fresh processes
-        let mut confirmed = 0;
-        for _ in 0..2 {
-            match run_replay_child(&exe, &p, Duration::from_secs(120)) {
-                Ok(1) | Err("signal") | Err("timeout") => confirmed += 1,
-                _ => {}
-            }
-        }
-        if confirmed == 2 && P::CRASH_IS_VIOLATION {
-            violations.push(json!({"check": pc["check"], "message": format!("process {kind}"), "replay": p.to_string_lossy()}));
+        todo.push((i, kind, p, pc["check"].clone()));
+    }
+    let confirmed: Vec<usize> = std::thread::scope(|sc| {
+        let hs: Vec<_> = todo
+            .iter()
+            .map(|(_, _, p, _)| {
+                let exe = &exe;
+                sc.spawn(move || {
+                    let two: Vec<_> = (0..2).map(|_| sc_confirm(exe, p)).collect();
+                    two.into_iter().filter(|x| *x).count()
+                })
+            })
+            .collect();
+        hs.into_iter().map(|h| h.join().unwrap_or(0)).collect()
+    });
+    for ((i, kind, p, check), n) in todo.into_iter().zip(confirmed) {
+        if n == 2 && P::CRASH_IS_VIOLATION {
+            violations.push(json!({"check": check, "message": format!("process {kind}"), "replay": p.to_string_lossy()}));
         } else {
-            inconclusive.push(format!("worker {i} {kind}, not confirmed in isolation ({confirmed}/2): {}", p.display()));
+            inconclusive.push(format!("worker {i} {kind}, not confirmed in isolation ({n}/2): {}", p.display()));
         }
+    }
+    if not_confirmed_extra > 0 {
+        println!("note: {not_confirmed_extra} further crashed / stalled workers were not attributed (limit of 6 distinct cases)");
     }
     for (_, out, _, _) in &children {
         let _ = std::fs::remove_file(out);
